@@ -7,7 +7,7 @@
 From Coq Require Import List NArith Bool.
 From Frugal Require Import Bytes Wire Skip Values Desc Spec Encode Decode Checks Tags State Bitset Alloc DescMap Conc LegacyDefs.
 From Frugal.gen Require Import Params.
-From Frugal.proofs Require Import GenOk BytesWire EncodeSpec SizeExact SkipPut DecodeSafe DecodeRefines RoundTrip Corollaries StateProofs BitsetProofs AllocProofs DescMapProofs ConcProofs BufferContract.
+From Frugal.proofs Require Import GenAccess DescMapProofs ConcProofs.
 From Frugal.props Require Import Examples.
 Import ListNotations.
 
@@ -47,3 +47,8 @@ Proof. exact access_ok_holds. Qed.
 
 Example C08_instance : finished (run (init [5; 5; 65541]%N) (concat (repeat [2; 0; 1; 0]%nat 12))) = true.
 Proof. vm_compute. reflexivity. Qed.
+
+(* the side conditions on the generated constants and tables that the theorems above assume hold
+   for what the translator read from the sources of this run *)
+Theorem C08_side_conditions : access_ok = true.
+Proof. exact access_ok_holds. Qed.
